@@ -340,7 +340,7 @@ CLAIMS["C08"] = dict(
          "the policies compared by hand; likewise compile_tr (internal-key extraction, per-leaf compilation, Huffman tree), "
          "compile_tr_native, compile_tr_private_experimental and compile_to_descriptor (bare / sh / wsh / sh-wsh / tr) "
          "evaluated on ~12 policies (thorough ~17): the descriptor is of the requested kind, lifts to the policy's truth "
-         "table (the unspendable key never available), every leaf passes validate(&Tap::SANE), the text re-parses. Every typed leaf constructor of Miniscript (pk_k ... sortedmulti_a, TRUE / FALSE: what parser, decoder and compiler use) attaches the type and figures that from_ast computes for the same node, in every context (shared rule).",
+         "table (the unspendable key never available), every leaf passes validate(&Tap::SANE), the text re-parses. Every typed leaf constructor of Miniscript (pk_k ... sortedmulti_a, TRUE / FALSE: what parser, decoder and compiler use) attaches the type and figures that from_ast computes for the same node, in every context (shared rule). The end-to-end compiler rule also runs a family in the Legacy and Bare contexts (known finding: a threshold over a time lock compiles to an or_i-bearing script that the context's own SANE parameters refuse) and includes policies with TRIVIAL / UNSATISFIABLE.",
     note="Trusted: spec/semantics.py + spec/policy_sem.py; C05/C06 (types are sound), C07 (lift), C09 (limits used by "
          "check_local_validity); rustc THIR; evaluator. Cost optimality and ExtData attached by casts (C09 decides the "
          "rules) are not decided; the end-to-end rules are bounded families.",
